@@ -235,6 +235,13 @@ def split_history(rng, recs, p_thin=0.6):
             thinned.append(dict(r, ps=keep_ps, us=keep_us))
             ext = {"p": rng.choice([r["p"]] + keep_ps), "u": rng.choice([r["u"]] + keep_us), "ps": drop_ps, "us": drop_us,
                    "pat": None}
+            # the extension may be tied to its record through one side only: its own prefix / URI prefix is then one of the
+            # names still to be acquired (matched through the URI prefix alone resp. through the CURIE prefix alone)
+            v = rng.random()
+            if v < 0.3 and drop_ps:
+                ext = dict(ext, p=drop_ps[0], ps=drop_ps[1:])
+            elif v < 0.6 and drop_us:
+                ext = dict(ext, u=drop_us[0], us=drop_us[1:])
             later.append(("merge", ext))
         else:
             thinned.append(r)
@@ -254,10 +261,28 @@ def build_steps(rng, recs, delim, queries, slot=0, p_incremental=0.35):
     d = [ord(ch) for ch in delim]
     # a few questions are asked with instances of a str subclass (as curies.Prefix is one): same characters, same answer
     queries = [dict(st, cls="sub") if st.get("op") == "q" and st.get("a") and rng.random() < 0.04 else st for st in queries]
+    # parse_uri is also called the deprecated way (return_none left at its default: a miss is (None, None) and a warning)
+    queries = [dict(st, legacy=True) if st.get("op") == "q" and st.get("m") == "parse_uri" and rng.random() < 0.25 else st
+               for st in queries]
     if recs and rng.random() < 0.12:
         # the application deep-copies or pickles its converter (multiprocessing, caching) and works with the copy
         header = [{"op": "clone", "dst": slot, "src": slot, "how": rng.choice(["deepcopy", "pickle"])}] + header
     sfx = "+copied" if header[0].get("op") == "clone" else ""
+    clash = []
+    if recs and rng.random() < 0.06:
+        # a collection with a clash between records that are not neighbours in any order the constructor might use: the
+        # record "zzclash…" (sorts last) re-uses a CURIE prefix or a URI prefix of the first record, "mmid…" sits between.
+        # A strict constructor must reject it (C04); if it does not, the converter it returns breaks every other property.
+        t = min(recs, key=lambda r: r["p"])
+        side = rng.choice(["p", "u"])
+        val = rng.choice([t[side]] + t["ps" if side == "p" else "us"])
+        mid = {"p": cps("mmid"), "u": cps("http://mid.example/"), "ps": [], "us": [], "pat": None}
+        last = {"p": cps("zzclash"), "u": cps("http://zzclash.example/"), "ps": [], "us": [], "pat": None}
+        if rng.random() < 0.5:
+            last[side] = val
+        else:
+            last["ps" if side == "p" else "us"] = [val]
+        clash = [{"op": "init", "dst": slot + 90, "records": recs + [mid, last], "delim": d}]
     decoy = []
     if len(recs) >= 2 and rng.random() < 0.12:
         # another converter lives in the same process, with the same strings meaning something else (the prefixes
@@ -293,7 +318,7 @@ def build_steps(rng, recs, delim, queries, slot=0, p_incremental=0.35):
                     {"op": "add_prefix", "c": slot + 50, "p": cps("twinp"), "u": cps("http://twin.example/"), "ps": [], "us": []}]
             extra = [_q(slot, "standardize_prefix", "twinp"), _q(slot, "expand_pair", "twinp", "1"),
                      _q(slot, "standardize_uri", "http://twin.example/1")]
-            return decoy + twin + header + list(queries) + extra, "init+twin-from-same-list" + sfx
+            return clash + decoy + twin + header + list(queries) + extra, "init+twin-from-same-list" + sfx
         simple = all(not r["ps"] and not r["us"] and r.get("pat") is None for r in recs) and len({tuple(r["p"]) for r in recs}) == len(recs)
         nopat = bool(recs) and all(r.get("pat") is None for r in recs) and len({tuple(r["p"]) for r in recs}) == len(recs)
         if simple and recs and rng.random() < 0.4:
@@ -309,8 +334,10 @@ def build_steps(rng, recs, delim, queries, slot=0, p_incremental=0.35):
             cons = [{"op": "init", "dst": slot, "records": recs, "delim": d,
                      "container": rng.choice(["list", "list", "tuple", "iter", "generator", "dict_values"])}]
         by, byq, bytag = bystander(rng, recs, delim, cons, slot)
-        return decoy + by + header + list(queries) + byq, "init" + sfx + bytag
+        return clash + decoy + by + header + list(queries) + byq, "init" + sfx + bytag
     thinned, later = split_history(rng, recs)
+    names = all_prefixes(recs) + all_uris(recs)
+    fold_free = len({n.casefold() for n in names}) == len(names)
     rest = [r for kind, r in later if kind == "add"]
     first = thinned
     warm = [dict(st) for st in rng.sample(queries, min(len(queries), 6))] if queries else []
@@ -318,15 +345,17 @@ def build_steps(rng, recs, delim, queries, slot=0, p_incremental=0.35):
     steps = [{"op": "init", "dst": slot, "records": thinned, "delim": d}] + warm
     for kind, r in later:
         merge = kind == "merge"
+        # case_sensitive=False only where it cannot change what the history builds: no two names equal up to case
+        cs = not fold_free or rng.random() >= 0.3
         if r.get("pat") is None and rng.random() < 0.5:
             steps.append({"op": "add_prefix", "c": slot, "p": r["p"], "u": r["u"], "ps": r["ps"], "us": r["us"],
-                          "merge": merge})
+                          "merge": merge, "cs": cs})
         else:
-            steps.append({"op": "add_record", "c": slot, "record": r, "merge": merge})
+            steps.append({"op": "add_record", "c": slot, "record": r, "merge": merge, "cs": cs})
         if rng.random() < 0.3 and queries:
             steps.append(dict(rng.choice(queries)))
     by, byq, bytag = bystander(rng, recs, delim, steps, slot)
-    return decoy + by + header + list(queries) + byq, ("incremental+merge" if len(later) > len(rest) else "incremental") + sfx + bytag
+    return clash + decoy + by + header + list(queries) + byq, ("incremental+merge" if len(later) > len(rest) else "incremental") + sfx + bytag
 
 
 def bystander(rng, recs, delim, cons, slot, p=0.22):
